@@ -437,6 +437,48 @@ def term_size(e, cap=5000):
     return n, heavy
 
 
+_gen_n = [0]
+
+
+def generalise(hyps, goal):
+    """replace the maximal compound bit-vector subterms of the goal that also occur in a hypothesis by fresh constants.
+    The generalised implication is at least as strong: if it is valid so is the original (`sat` proves nothing)."""
+    hyp_ids = set()
+    for h in hyps:
+        todo = [h]
+        seen = set()
+        while todo:
+            x = todo.pop()
+            i = x.get_id()
+            if i in seen:
+                continue
+            seen.add(i)
+            if z3.is_quantifier(x):
+                continue
+            hyp_ids.add(i)
+            if z3.is_app(x):
+                todo.extend(x.children())
+    pairs = []
+    todo = [goal]
+    seen = set()
+    while todo:
+        x = todo.pop()
+        i = x.get_id()
+        if i in seen or z3.is_quantifier(x) or not z3.is_app(x):
+            continue
+        seen.add(i)
+        if (z3.is_bv(x) and x.num_args() > 0 and i in hyp_ids and not z3.is_bv_value(x)
+                and x.decl().kind() not in (z3.Z3_OP_ZERO_EXT, z3.Z3_OP_SIGN_EXT, z3.Z3_OP_CONCAT, z3.Z3_OP_ITE, z3.Z3_OP_SELECT)
+                and x.decl().kind() != z3.Z3_OP_UNINTERPRETED):
+            _gen_n[0] += 1
+            pairs.append((x, z3.BitVec('gen!%d' % _gen_n[0], x.size())))
+            continue          # maximal: do not descend
+        todo.extend(x.children())
+    if not pairs:
+        return None
+    return [z3.substitute(h, *pairs) for h in hyps], z3.substitute(goal, *pairs)
+
+
 def _run(strat, pc, goal, ms, seed):
     s = _solver(strat)
     s.set('timeout', max(500, int(ms)))
@@ -491,6 +533,13 @@ def check(pc, goal, timeout_ms):
         total += dt
         if r == z3.unsat:
             return 'unsat', total, None, '%s:%d/%d' % (name, len(sub), len(pc))
+        if name == 'L3':
+            gen = generalise(sub, goal)
+            if gen is not None:
+                r, dt, s = _run('simp', gen[0], gen[1], min(8000, timeout_ms * 0.12), seed)
+                total += dt
+                if r == z3.unsat:
+                    return 'unsat', total, None, 'L3-generalised:%d/%d' % (len(sub), len(pc))
     reasons = []
     tot_share = sum(SHARES.get(x, 0.3) for x in STRATEGIES)
     for strat in STRATEGIES:
